@@ -8,6 +8,12 @@ src, sid, prop = sys.argv[1], sys.argv[2], sys.argv[3]
 tier = sys.argv[4] if len(sys.argv) > 4 else "quick"
 env = dict(os.environ, GOFLAGS="-mod=mod", GOPROXY="off")
 env.pop("GOTOOLCHAIN", None); env.pop("GOSUMDB", None)
+# the library's generated-code tests build in a fixed directory under os.TempDir(): a private TMPDIR keeps this run apart
+# from anything else that runs the suite at the same time
+_tmp = "/tmp/seedtmp_" + sid
+shutil.rmtree(_tmp, ignore_errors=True); os.makedirs(_tmp, exist_ok=True)
+env["TMPDIR"] = _tmp
+import atexit; atexit.register(lambda: shutil.rmtree(_tmp, ignore_errors=True))
 def sh(cmd, cwd=None, timeout=3000):
     p = subprocess.run(cmd, shell=True, cwd=cwd, env=env, stdout=subprocess.PIPE, stderr=subprocess.STDOUT, text=True, errors="replace", timeout=timeout)
     return p.returncode, p.stdout
